@@ -29,7 +29,7 @@ MANIFEST = {'engines': ['E1-enum']}
 
 SLAB = ['int', 'rev', 'str', 'mix', 'tup', 'fd']
 ALAB = ['ab', 'rev', 'ab', 'mix', 'rev', 'fd']
-ZERO = ['none', 'inside', 'outside']
+ZERO = ['none', 'inside', 'outside', 'zero_init']
 
 
 def bounds(tier):
@@ -81,11 +81,11 @@ def cut_family():
 def items(tier, seed):
     for i, it in enumerate(spec_items(tier)):
         if tier == 'quick':
-            yield (it, (i + seed) % 6, (i // 6) % 2, ZERO[(i // 2 + seed) % 3])
+            yield (it, (i + seed) % 6, (i // 6) % 2, ZERO[(i // 12 + seed) % 4])      # 48-cycle: every (labelling, explicit, zero mode) triple
         else:
             for k in range(3):
                 li = (i + 2 * k + seed) % 6
-                yield (it, li, (i + k) % 2, ZERO[(i + k + seed) % 3])
+                yield (it, li, (i + k) % 2, ZERO[(i // 2 + k + seed) % 4])
 
 
 def with_zero_entry(spec_item, mode):
@@ -94,7 +94,13 @@ def with_zero_entry(spec_item, mode):
     tag, n, T, ab, init, g = spec_item
     if mode == 'none':
         return spec_item, None
+    if mode == 'zero_init':
+        # a zero-probability entry in the INITIAL distribution, for a fresh state nothing leads to: not part of the support
+        T2 = tuple(T) + ((('a', ((n, F(1)),), F(0)),),)
+        return ('mdp', n + 1, T2, ab, tuple(init) + ((n, F(0)),), g), n
     s0 = min(s for s, p in init if p > 0)
+    if not T[s0]:
+        return spec_item, None
     a, dist, rew = T[s0][0]
     if mode == 'inside':
         tgt = next((t for t in range(n) if t not in [ns for ns, _ in dist]), None)
@@ -166,8 +172,21 @@ def check(item, tier):
             r.count('transitions')
             if not (rs <= full and init_supp <= rs):
                 bad('reachable_states_bounds', {'k': k, 'got': sorted(map(repr, rs)), 'full': sorted(map(repr, full))})
-            elif k >= len(full) + 1 and rs != full:
-                bad('reachable_states_not_full', {'k': k, 'got': sorted(map(repr, rs)), 'full': sorted(map(repr, full))})
+            else:
+                # a cut-off result is a connected piece of the closure: every member outside the initial support has a
+                # predecessor inside it (expanded: initial, or not absorbing); and the cut-off is honoured up to one expansion
+                idx = {mdp.s_of[x] for x in rs}
+                init_idx = {s for s, p in spec.init.items() if p > 0}
+                expandable = {s for s in idx if s in init_idx or s not in spec.abs_explicit}
+                succ = {ns for s in expandable for a in spec.acts[s] for ns in spec.T[s][a]}
+                orphans = idx - init_idx - succ
+                maxfan = max([len({ns for a in spec.acts[s] for ns in spec.T[s][a]}) for s in range(n)] + [1])
+                if orphans:
+                    bad('reachable_states_cutoff_not_connected', {'k': k, 'got': sorted(idx), 'orphans': sorted(orphans)})
+                elif len(idx) > max(k, len(init_idx)) + maxfan - 1 and len(idx) > len(init_idx):
+                    bad('reachable_states_ignores_cutoff', {'k': k, 'got': sorted(idx), 'max_successors_of_one_state': maxfan})
+                if k >= len(full) + 1 and rs != full:
+                    bad('reachable_states_not_full', {'k': k, 'got': sorted(map(repr, rs)), 'full': sorted(map(repr, full))})
         if set(mdp.reachable_states()) != full:
             bad('reachable_states_default', {'got': sorted(map(repr, mdp.reachable_states())), 'full': sorted(map(repr, full))})
         # is some listed state's positive-probability successor outside the list?  (only possible
@@ -179,14 +198,23 @@ def check(item, tier):
         try:
             tm = mdp.transition_matrix
             rm = mdp.reward_matrix
+        except KeyError as e:
+            # K4 is exactly this: the two successor-indexed arrays raise KeyError for a successor outside the inferred list
+            bad('arrays_exception', {'error': repr(e)[:300], 'outside_successor': outside_succ, 'zero_outside': zero_outside},
+                finding='K4' if outside_succ else None)
+            return r
+        except BaseException as e:
+            bad('arrays_exception', {'error': repr(e)[:300], 'outside_successor': outside_succ, 'zero_outside': zero_outside})
+            return r
+        try:
             am = mdp.action_matrix
             s0 = mdp.initial_state_vec
             ab = mdp.absorbing_state_vec
             sar = mdp.state_action_reward_matrix
             tt, rt, sart = mdp.transition_table, mdp.reward_table, mdp.state_action_reward_table
         except BaseException as e:
-            bad('arrays_exception', {'error': repr(e)[:300], 'outside_successor': outside_succ, 'zero_outside': zero_outside},
-                finding='K4' if outside_succ else None)
+            bad('arrays_exception', {'error': repr(e)[:300], 'outside_successor': outside_succ, 'zero_outside': zero_outside,
+                                     'where': 'arrays other than transition_matrix / reward_matrix'})
             return r
         si = {mdp.s_of[ls]: i for i, ls in enumerate(slist)}
         ai = {mdp.a_of[la]: i for i, la in enumerate(alist)}
